@@ -1,6 +1,47 @@
-(* Properties/C09.v — structurally invalid DSL is always rejected.  Statements only. *)
-From Verif Require Import Base.Str Base.Outcome Model.Ast Model.Token Model.Parser Model.Listener.
+(* Properties/C09.v — structurally invalid DSL is always rejected, wherever the defect occurs.
+   Statements only; proofs in Proofs/ListenerFile.v.  The "equivalently" form of the property is the one
+   proved: whenever the listener accepts a grammatical document, every declaration is reflected — no
+   relation, condition or parameter is declared twice, `extend` stands only in module files and at most
+   once per type.  (The grammar-level violations — mixed operators, misplaced or empty direct
+   assignment, wildcard with relation, headers, container types — are syntax errors of the parser model
+   and are exercised by the injection catalogue of the check.) *)
+From Verif Require Import Base.Str Base.Outcome Model.Ast Model.Token Model.Parser Model.Listener
+  Spec.Sem Proofs.ListenerSem Proofs.ListenerFile.
 
-(* two operands with no operator between them never denote a rewrite *)
+(* 1. a relation name that is repeated inside one type (anywhere in the list) raises an error *)
+Theorem C09_duplicate_relation : forall modular ext module_ tyname rs,
+  Forall (fun r => wf_rdef (rl_def r) = true) rs ->
+  forall rels meta errs rels' meta' errs',
+  (~ NoDup (map rname rs) \/ exists r, In r rs /\ assoc (rname r) rels <> None) ->
+  walk_reldecls modular ext module_ tyname rs rels meta errs = Ok (rels', meta', errs') ->
+  errs' <> errs.
+Proof. exact walk_reldecls_duplicate. Qed.
+
+(* 2. `extend` in a model file, and a type extended twice in one file, raise an error *)
+Theorem C09_extend_in_model : forall t s s',
+  ty_extend t = true -> ls_modular s = false -> walk_typedecl t s = Ok s' -> ls_errs s' <> ls_errs s.
+Proof. exact walk_typedecl_extend_in_model. Qed.
+Theorem C09_extended_twice : forall t s s',
+  ty_extend t = true -> ls_modular s = true -> tname t <> [] -> assoc (tname t) (ls_exts s) <> None ->
+  walk_typedecl t s = Ok s' -> ls_errs s' <> ls_errs s.
+Proof. exact walk_typedecl_extended_twice. Qed.
+
+(* 3. the whole document: acceptance implies that nothing is declared twice, at whatever position *)
+Theorem C09_reflected : forall f s,
+  wf_file f -> Forall (fun t => tname t <> []) (f_types f) ->
+  walk f = Ok s -> ls_errs s = [] -> distinct_decls f.
+Proof. exact walk_accepts_only_distinct. Qed.
+
+(* 4. and then the returned model is exactly the denotation of the document: every declaration is in it *)
+Theorem C09_accepted_model_is_the_document : forall f s,
+  wf_file f -> Forall (fun t => tname t <> []) (f_types f) ->
+  walk f = Ok s -> ls_errs s = [] -> model_of s = sem_file f.
+Proof.
+  intros f s Hwf Hn Hw He.
+  destruct (walk_is_sem f Hwf (walk_accepts_only_distinct f s Hwf Hn Hw He)) as [s' [Hw' [_ Hm]]].
+  rewrite Hw in Hw'. inversion Hw'; subst. exact Hm.
+Qed.
+
+(* 5. two operands with no operator between them never denote a rewrite *)
 Theorem C09_no_operator_no_rewrite : forall a b r, parse_expression (a :: b :: r) ONone = None.
 Proof. reflexivity. Qed.
